@@ -580,7 +580,7 @@ def gen_items(run):
     quick = run.tier == "quick"
     exe_util = core.ARTS["san"]["naken_util"]
     exe_asm = core.ARTS["san"]["naken_asm"]
-    n = 400 if quick else 20000
+    n = 1200 if quick else 20000
     items = []
     rng = run.rng
     for i in range(n):
